@@ -254,6 +254,7 @@ impl Ctx {
             }
             merrs.retain(|m| !m.starts_with("vacuous run"));
         }
+        self.count_max("watchdog_max_cpu_ms_between_progress_marks", crate::watchdog::max_gap_ms());
         let counters = self.counters.lock().unwrap().clone();
         let mut coverage = match cov {
             Coverage::StateGraph { rule } => json!({
